@@ -1,6 +1,124 @@
-(* C28  A link is encrypted only with a key supplied for it.  (placeholder while the proofs are written) *)
-From BT Require Import Base.ListX LL.LLModel LL.LLSpec LL.LLSpecC28.
+(* C28  A link is encrypted only with a key supplied for it.  Statements only; proofs in LL/LLProofsC28.v.
+   Model: LL/LLModel.v (link_layer_security_impl AFTER the repair fix/C28-start-enc-rsp-state), specification and monitor:
+   LL/LLSpecC28.v.  All theorems quantify over EVERY configuration and EVERY list of operations (any length): connect
+   requests, connection events with any number of any PDUs (LL_ENC_REQ / LL_START_ENC_RSP / LL_PAUSE_ENC_REQ / LL_PAUSE_ENC_RSP
+   in any order, every other control PDU, ATT traffic), missed events, disconnect(), the key store's answer, API calls.
+   [no_crash]: no operation of the history ends in a failing assert (OCrash; crash freedom is C22's subject). *)
+From BT Require Import Base.ListX LL.LLModel LL.LLSpec LL.LLSpecC28 LL.LLProofsC28.
+From BT Require gen.GenLL.
 Import ListNotations.
 Local Open Scope N_scope.
-Example C28_placeholder : minit28 (mk_cfg true true 500 CprNone true 31 []) = fresh28 false.
-Proof. reflexivity. Qed.
+
+(* is_encrypted() implies the specification's "encrypted": the last LL_ENC_REQ of THIS connection found a key (findkey
+   while the key store knew it), LL_START_ENC_REQ was committed for it afterwards (enc:r+), the LL_START_ENC_RSP came
+   after that, and no pause, disconnect(), end of the link or new connection happened since. *)
+Theorem C28_encrypted_only_with_key :
+  forall (c : cfg) (ops : list lop),
+    no_crash (lrun c (linit c) ops) ->
+    is_enc (sc (lfinal c (linit c) ops)) = true -> spec_encrypted c (lrun c (linit c) ops) = true.
+Proof. exact encrypted_only_with_key. Qed.
+Print Assumptions C28_encrypted_only_with_key.
+
+(* The monitor's decision clauses accept every model trace: never enc:t+ without a pending request with a known key
+   (encrypted_without_key), never before LL_START_ENC_REQ was sent or after a pause that followed it
+   (encrypted_without_start_enc_req), never LL_START_ENC_REQ for an unknown key (unknown_key_not_rejected) or without a
+   request (start_enc_req_unrequested), never still encrypted after disconnect() or at the end of the link
+   (pause_keeps_encrypted). *)
+Theorem C28_monitor_accepts_decisions :
+  forall (c : cfg) (ops : list lop),
+    no_crash (lrun c (linit c) ops) -> accepts28_core c (lrun c (linit c) ops).
+Proof. exact core_monitor_accepts. Qed.
+Print Assumptions C28_monitor_accepts_decisions.
+
+(* The state the repair relies on ("LL_START_ENC_REQ sent, LL_START_ENC_RSP awaited" = has_key_ && !encryption_in_progress_)
+   means what the specification says: a request with a known key is pending and its LL_START_ENC_REQ was sent. *)
+Theorem C28_start_pending_only_with_key :
+  forall (c : cfg) (ops : list lop),
+    no_crash (lrun c (linit c) ops) ->
+    has_key (sc (lfinal c (linit c) ops)) = true ->
+    let m := snd (mrun28g false c (minit28 c) (lrun c (linit c) ops)) in
+    q_req m = Some true /\ (enc_prog (sc (lfinal c (linit c) ops)) = false -> q_sent m = true).
+Proof. exact start_pending_only_with_key. Qed.
+Print Assumptions C28_start_pending_only_with_key.
+
+(* one operation: the simulation step of the induction (any state related to any monitor state) *)
+Theorem C28_step :
+  forall c s m o s' r, R c s m -> lstep c s o = (s', r) -> r <> OCrash ->
+    exists m', mstep28g false c m o r = (Ok, m') /\ R c s' m'.
+Proof. exact step_ok. Qed.
+Print Assumptions C28_step.
+
+(* NOT PROVED (stated only; judged on every implementation trace of every run, and by the Examples below): the complete
+   monitor, i.e. with the on-air clauses - LL_START_ENC_REQ on air only when one is due, the reject for an unknown key on
+   air in the next connection event, LL_PAUSE_ENC_RSP only on an unencrypted link, the protected value on air only if
+   the link was encrypted during the event that queued it - accepts every model trace. What is missing is the invariant
+   that relates the model's transmit queue to the monitor's bookkeeping. *)
+Definition C28_monitor_accepts_full : Prop := monitor28_accepts_full.
+
+(* ---- non-vacuity: a session that starts encryption properly, reads the protected value, pauses, is refused the value,
+   is rejected for an unknown key, disconnects - accepted by the COMPLETE monitor; the hypothesis no_crash holds of it;
+   the link really is encrypted in the middle of it *)
+Example C28_session_accepted : fst (mrun28g true cfg28 (minit28 cfg28) (lrun cfg28 (linit cfg28) session28)) = Ok.
+Proof. exact session28_accepted. Qed.
+Example C28_session_no_crash : no_crash (lrun cfg28 (linit cfg28) session28).
+Proof. exact session28_no_crash. Qed.
+Example C28_session_on_air :
+  flat_map (fun x => match snd x with OItems it => flat_map (fun i => match i with ITx l b => [(l, b)] | _ => [] end) it | _ => [] end)
+           (lrun cfg28 (linit cfg28) session28)
+  = [(3, 4 :: skds_bytes ++ ivs_bytes); (3, [5]); (3, [6]); (2, [2; 0; 4; 0; 11; 23]); (3, [11]); (2, [5; 0; 4; 0; 1; 10; 3; 0; 5]);
+     (3, 4 :: skds_bytes ++ ivs_bytes); (3, [17; 3; 6]); (3, [7; 6]); (2, [5; 0; 4; 0; 1; 10; 3; 0; 5]); (3, [2; 22])].
+Proof. exact session28_on_air. Qed.
+Example C28_session_reaches_encrypted :
+  is_enc (sc (lfinal cfg28 (linit cfg28) (firstn 7 session28))) = true
+  /\ spec_encrypted cfg28 (lrun cfg28 (linit cfg28) (firstn 7 session28)) = true.
+Proof. exact session28_reaches_encrypted. Qed.
+
+(* ---- the witnesses of the defect (corpus/C28): the repaired model never switches transmit encryption on, never lets the
+   protected value out, ends unencrypted - and the complete monitor accepts its traces *)
+Example C28_witnesses_refused_after_repair :
+  never_encrypted cfg28 witness_lone = true /\ never_encrypted cfg28 witness_early = true /\ never_encrypted cfg28 witness_unknown = true
+  /\ fst (mrun28g true cfg28 (minit28 cfg28) (lrun cfg28 (linit cfg28) witness_lone)) = Ok
+  /\ fst (mrun28g true cfg28 (minit28 cfg28) (lrun cfg28 (linit cfg28) witness_early)) = Ok
+  /\ fst (mrun28g true cfg28 (minit28 cfg28) (lrun cfg28 (linit cfg28) witness_unknown)) = Ok.
+Proof. exact witnesses_refused. Qed.
+
+(* ---- the monitor is not trivially accepting: observed traces of the pre-repair behaviour and of other violations *)
+Example C28_monitor_rejects_lone_start_enc_rsp :
+  fst (mrun28g true cfg28 (minit28 cfg28) (started28 ++ [(Ev 0 [start_enc_rsp], OItems [IEncTx true; ICe 30 1 2 30000; ICb (EvChanged d28)])])) = Bad 1.
+Proof. exact monitor28_rejects_lone_start_enc_rsp. Qed.
+Example C28_monitor_rejects_start_before_request_sent :
+  fst (mrun28g true cfg28 (minit28 cfg28)
+         (started28 ++ [(Key true, OItems []);
+                        (Ev 0 [enc_req; start_enc_rsp], OItems [IFindKey 4660 1; ISetup toy_key 2 3; IEncTx true; IEncRx true; ICe 30 1 2 30000])])) = Bad 2.
+Proof. exact monitor28_rejects_start_before_request_sent. Qed.
+Example C28_monitor_rejects_start_for_unknown_key :
+  fst (mrun28g true cfg28 (minit28 cfg28)
+         (started28 ++ [(Ev 0 [enc_req], OItems [IFindKey 4660 1; ISetup zero_key 2 3; IEncRx true; ICe 30 1 2 30000])])) = Bad 3.
+Proof. exact monitor28_rejects_start_for_unknown_key. Qed.
+Example C28_monitor_rejects_missing_reject :
+  fst (mrun28g true cfg28 (minit28 cfg28)
+         (started28 ++ [(Ev 0 [enc_req], OItems [IFindKey 4660 1; ISetup zero_key 2 3; ICe 30 1 2 30000]);
+                        (Ev 0 [], OItems [ITx 3 (4 :: skds_bytes ++ ivs_bytes); ICe 3 1 2 30000])])) = Bad 3.
+Proof. exact monitor28_rejects_missing_reject. Qed.
+Example C28_monitor_accepts_proper_start : fst (mrun28g true cfg28 (minit28 cfg28) encrypted28) = Ok.
+Proof. exact monitor28_accepts_proper_start. Qed.
+Example C28_monitor_rejects_encrypted_after_disconnect :
+  fst (mrun28g true cfg28 (minit28 cfg28) (encrypted28 ++ [(Disconnect None, OItems [])])) = Bad 4.
+Proof. exact monitor28_rejects_encrypted_after_disconnect. Qed.
+Example C28_monitor_rejects_readable_after_pause :
+  fst (mrun28g true cfg28 (minit28 cfg28)
+         (encrypted28 ++ [(Ev 0 [pause_enc_req], OItems [ITx 3 [6]; IEncRx false; ICe 23 1 2 30000; ICb (EvChanged d28)]);
+                          (Ev 0 [read_secret], OItems [ITx 3 [11]; ICe 33 1 2 30000]);
+                          (Ev 0 [], OItems [ITx 2 [2; 0; 4; 0; 11; 23]; ICe 6 1 2 30000])])) = Bad 4.
+Proof. exact monitor28_rejects_readable_after_pause. Qed.
+Example C28_monitor_rejects_readable_unencrypted :
+  fst (mrun28g true cfg28 (minit28 cfg28)
+         (started28 ++ [(Ev 0 [read_secret], OItems [ICe 30 1 2 30000]); (Ev 0 [], OItems [ITx 2 [2; 0; 4; 0; 11; 23]; ICe 3 1 2 30000])])) = Bad 5.
+Proof. exact monitor28_rejects_readable_unencrypted. Qed.
+
+(* ---- constants read from link_layer.hpp on every run = the Core specification's (Vol 6 Part B 2.4.2) *)
+Example C28_opcodes_are_the_specifications :
+  GenLL.LL_ENC_REQ = 3 /\ GenLL.LL_ENC_RSP = 4 /\ GenLL.LL_START_ENC_REQ = 5 /\ GenLL.LL_START_ENC_RSP = 6
+  /\ GenLL.LL_PAUSE_ENC_REQ = 10 /\ GenLL.LL_PAUSE_ENC_RSP = 11 /\ GenLL.LL_UNKNOWN_RSP = 7 /\ GenLL.LL_REJECT_IND = 13
+  /\ GenLL.LL_REJECT_EXT_IND = 17 /\ GenLL.err_pin_or_key_missing = 6.
+Proof. repeat split; reflexivity. Qed.
